@@ -17,6 +17,8 @@ class Clock:
         self.sut_reads = 0  # reads whose calling frame is code of the dpapi_ng package (libraries read clocks for their own timeouts)
         self.float_reads = 0  # reads through time.time() (a float cannot represent a 100ns tick of this century exactly)
         self.value_ns: t.Optional[int] = None
+        self.step_ns = 0  # a moving clock: every read advances the scripted instant by this much
+        self.served: t.List[int] = []  # instants served since the last at_ns() entry (bounded)
         self._orig_ns = time.time_ns
         self._orig = time.time
         self._installed = False
@@ -39,7 +41,7 @@ class Clock:
                 return clock._orig_ns()
             clock.reads += 1
             clock.sut_reads += from_sut()
-            return clock.value_ns
+            return clock._serve()
 
         def time_():
             if clock.value_ns is None:
@@ -47,7 +49,7 @@ class Clock:
             clock.reads += 1
             clock.float_reads += 1
             clock.sut_reads += from_sut()
-            return clock.value_ns / 1e9
+            return clock._serve() / 1e9
 
         time.time_ns = time_ns
         time.time = time_
@@ -76,7 +78,7 @@ class Clock:
             clock.reads += 1
             clock.datetime_reads += 1
             clock.sut_reads += clock._from_sut()
-            return epoch + _dt.timedelta(microseconds=clock.value_ns // 1000)
+            return epoch + _dt.timedelta(microseconds=clock._serve() // 1000)
 
         class datetime(real, metaclass=_Meta):  # noqa: N801
             @classmethod
@@ -106,15 +108,23 @@ class Clock:
         self.real_datetime = real
         _dt.datetime = datetime
 
+    def _serve(self) -> int:
+        v = self.value_ns
+        if len(self.served) < 64:
+            self.served.append(v)
+        if self.step_ns:
+            self.value_ns = v + self.step_ns
+        return v
+
     @contextlib.contextmanager
-    def at_ns(self, ns: int):
+    def at_ns(self, ns: int, step_ns: int = 0):
         self.install()
-        prev = self.value_ns
-        self.value_ns = ns
+        prev = (self.value_ns, self.step_ns, self.served)
+        self.value_ns, self.step_ns, self.served = ns, step_ns, []
         try:
             yield self
         finally:
-            self.value_ns = prev
+            self.value_ns, self.step_ns, self.served = prev
 
 
 CLOCK = Clock()
